@@ -30,7 +30,7 @@ type Client struct {
 }
 
 type Fault struct {
-	Kind   string `json:"kind"` // none | kill-restart | pause
+	Kind   string `json:"kind"` // none | kill-restart | pause | member-add (a 4th node joins; Target = the node that is asked) | member-remove (Target leaves; asked through another node)
 	Target int    `json:"target"`
 	AtMs   int    `json:"at_ms"`
 	DurMs  int    `json:"dur_ms"`
@@ -42,6 +42,9 @@ type Case struct {
 	Clients []Client `json:"clients"`
 	Faults  []Fault  `json:"faults"`
 	PaceUs  int      `json:"pace_us"` // pause between a client's operations
+	// Member: the case changes the membership; it runs on a cluster of its own. Clients bound to node 4
+	// wait until the node that joins serves.
+	Member bool `json:"member,omitempty"`
 }
 
 var keys = []string{"s0", "s1", "l0", "t0", "h0", "a", "b", "l1", "t1"}
@@ -226,13 +229,18 @@ type cconn struct {
 	cl   *srv.Cluster
 	node int
 	c    *srv.Conn
+	// notSent: the last do() failed before a single byte of the command left (no connection): the
+	// command certainly has no effect
+	notSent bool
 }
 
 func (cc *cconn) do(cmd kit.Cmd) (respx.Value, bool) {
+	cc.notSent = false
 	if cc.c == nil {
 		c, err := cc.cl.Dial(cc.node)
 		if err != nil {
 			time.Sleep(40 * time.Millisecond) // the node is down: do not burn through the program
+			cc.notSent = true
 			return respx.Value{}, false
 		}
 		cc.c = c
@@ -331,10 +339,22 @@ func exec(c Case) kit.Outcome {
 	if oneCPU {
 		ckey += 100
 	}
-	cl, err := clusterFor(c.Nodes, oneCPU)
+	var cl *srv.Cluster
+	var err error
+	if c.Member {
+		ckey = -1
+		if cl, err = srv.StartCluster(srv.ClusterOptions{Size: c.Nodes}); err == nil {
+			defer cl.Stop()
+		}
+	} else {
+		cl, err = clusterFor(c.Nodes, oneCPU)
+	}
 	if err != nil {
 		return kit.Outcome{Fail: "infrastructure: " + err.Error()}
 	}
+	removed := map[int]bool{}
+	joined := make(chan struct{}) // closed when the joining node has been started and announced
+	var joinOnce sync.Once
 	if err := wipe(cl, 1); err != nil {
 		cl.Stop()
 		delete(clusters, ckey)
@@ -349,7 +369,7 @@ func exec(c Case) kit.Outcome {
 	}
 	var mu sync.Mutex
 	var hist []porcupine.Operation
-	unknown := 0
+	unknown, neverSent := 0, 0
 	var wg sync.WaitGroup
 	start := make(chan struct{})
 	t0 := time.Now()
@@ -364,9 +384,37 @@ func exec(c Case) kit.Outcome {
 				}
 			}()
 			<-start
+			if clnt.Node > c.Nodes {
+				// a client of the node that joins: wait until it is there and serves
+				select {
+				case <-joined:
+				case <-time.After(30 * time.Second):
+					return
+				}
+				for i := 0; i < 150; i++ {
+					if cn, err := cl.Dial(clnt.Node); err == nil {
+						_, err = cn.DoS(2*time.Second, "GET", "__ready:probe")
+						cn.Close()
+						if err == nil {
+							break
+						}
+					}
+					time.Sleep(100 * time.Millisecond)
+				}
+			}
 			for _, cmd := range clnt.Ops {
 				call := time.Since(t0).Nanoseconds()
 				v, ok := cc.do(cmd)
+				if !ok && cc.notSent {
+					mu.Lock()
+					gone := removed[clnt.Node]
+					neverSent++
+					mu.Unlock()
+					if gone {
+						return // the node has left the cluster for good
+					}
+					continue
+				}
 				ret := time.Since(t0).Nanoseconds()
 				part := string(cmd[1])
 				if c.Multi {
@@ -383,7 +431,11 @@ func exec(c Case) kit.Outcome {
 				if !ok {
 					unknown++
 				}
+				gone := !ok && removed[clnt.Node]
 				mu.Unlock()
+				if gone {
+					return // the node has left the cluster: it may accept connections, it will never answer
+				}
 				if c.PaceUs > 0 {
 					time.Sleep(time.Duration(c.PaceUs) * time.Microsecond)
 				}
@@ -399,6 +451,25 @@ func exec(c Case) kit.Outcome {
 			<-start
 			time.Sleep(time.Duration(f.AtMs) * time.Millisecond)
 			switch f.Kind {
+			case "member-add":
+				id, url, err := cl.AddNode()
+				if err != nil {
+					return
+				}
+				if cn, err := cl.Dial(f.Target); err == nil {
+					_, _ = cn.DoS(opTimeout, "rconf", "add", strconv.Itoa(id), url)
+					cn.Close()
+				}
+				joinOnce.Do(func() { close(joined) })
+			case "member-remove":
+				via := 1 + f.Target%c.Nodes
+				if cn, err := cl.Dial(via); err == nil {
+					_, _ = cn.DoS(opTimeout, "rconf", "delete", strconv.Itoa(f.Target))
+					cn.Close()
+				}
+				mu.Lock()
+				removed[f.Target] = true
+				mu.Unlock()
 			case "kill-restart":
 				cl.Kill(f.Target)
 				time.Sleep(time.Duration(f.DurMs) * time.Millisecond)
@@ -449,8 +520,19 @@ func exec(c Case) kit.Outcome {
 	close(start)
 	wg.Wait()
 	fwg.Wait()
+	joinOnce.Do(func() { close(joined) })
+	// the members at the end: everything that was started, minus what was removed
+	var members []int
+	for i := 1; i <= len(cl.Nodes); i++ {
+		if !removed[i] {
+			members = append(members, i)
+		}
+	}
+	if c.Member {
+		o.Labels = append(o.Labels, fmt.Sprintf("members-at-the-end:%d", len(members)))
+	}
 	// (3) every node that was not deliberately killed is alive; restarted ones came back
-	for i := 1; i <= c.Nodes; i++ {
+	for _, i := range members {
 		if !cl.Alive(i) {
 			rep := cl.CrashReport(i)
 			cl.Stop()
@@ -459,7 +541,7 @@ func exec(c Case) kit.Outcome {
 			return o
 		}
 	}
-	if err := cl.WaitServing(30*time.Second, nil); err != nil {
+	if err := cl.WaitServing(30*time.Second, members); err != nil {
 		logs := cl.Logs(500)
 		cl.Stop()
 		delete(clusters, ckey)
@@ -474,7 +556,7 @@ func exec(c Case) kit.Outcome {
 	}
 	// (2) replicas agree at quiescence
 	var dumps []string
-	for i := 1; i <= c.Nodes; i++ {
+	for _, i := range members {
 		d, err := dumpNode(cl, i)
 		if err != nil {
 			o.Inconclusive = true
@@ -485,12 +567,12 @@ func exec(c Case) kit.Outcome {
 	}
 	for i := 1; i < len(dumps); i++ {
 		if dumps[i] != dumps[0] {
-			o.Fail = fmt.Sprintf("replicas disagree at quiescence (all nodes up, barrier write acknowledged through each):\n--- node 1\n%s--- node %d\n%s", dumps[0], i+1, dumps[i])
+			o.Fail = fmt.Sprintf("replicas disagree at quiescence (all members up, barrier write acknowledged through each):\n--- node %d\n%s--- node %d\n%s", members[0], dumps[0], members[i], dumps[i])
 			return o
 		}
 	}
 	// (1) linearizability, with the final state read through node 1 as last operations
-	cn, err := cl.Dial(1)
+	cn, err := cl.Dial(members[0])
 	if err == nil {
 		reads := [][]string{{"GET", "s0"}, {"GET", "s1"}, {"LRANGE", "l0", "0", "-1"}, {"SMEMBERS", "t0"}, {"HGETALL", "h0"}}
 		if c.Multi {
@@ -522,6 +604,7 @@ func exec(c Case) kit.Outcome {
 	}
 	o.NonTrivial = overl || len(c.Faults) > 0
 	kit.C.Label("indeterminate-ops", int64(unknown))
+	kit.C.Label("ops-never-sent-node-down", int64(neverSent))
 	switch lin.Check(hist, 20*time.Second) {
 	case porcupine.Illegal:
 		byKey := map[string][]porcupine.Operation{}
@@ -577,6 +660,47 @@ func genPauseEach(t *rapid.T) Case {
 		c.Clients = append(c.Clients, cl)
 	}
 	return c
+}
+
+// genMemberCase: the membership changes under load - a fourth node joins (started with JoinCluster,
+// announced with "rconf add"), and/or a member is removed ("rconf delete"); a quorum exists throughout.
+// Clients keep working on every node, including the one that joins (once it serves) and the one that
+// leaves (its operations become indeterminate).
+func genMemberCase(t *rapid.T) Case {
+	c := Case{Nodes: 3, Member: true, PaceUs: rapid.SampledFrom([]int{10000, 20000}).Draw(t, "pace")}
+	// 0: a node joins, 1: a node leaves. (rconf proposes explicit joint changes and never leaves the joint
+	// configuration, so the library refuses any second change: one change per case.)
+	// The domain is tiny (join; leave x 3 nodes): the shards of a run walk through it side by side.
+	plan := (kit.Shard() + rapid.IntRange(0, 3).Draw(t, "plan")) % 4
+	kind := 1
+	if plan == 3 {
+		kind = 0
+	}
+	nc := rapid.IntRange(3, 6).Draw(t, "clients")
+	for i := 0; i < nc; i++ {
+		cl := Client{Node: 1 + rapid.IntRange(0, 2).Draw(t, "node")}
+		if kind != 1 && i == nc-1 {
+			cl.Node = 4
+		}
+		for j := 0; j < 300; j++ { // 3-6 s of load: it spans both changes
+			cl.Ops = append(cl.Ops, genOp(t, i, j))
+		}
+		c.Clients = append(c.Clients, cl)
+	}
+	at := rapid.IntRange(0, 300).Draw(t, "at")
+	if kind != 1 {
+		c.Faults = append(c.Faults, Fault{Kind: "member-add", Target: 1 + rapid.IntRange(0, 2).Draw(t, "askadd"), AtMs: at})
+		at += 1500 + rapid.IntRange(0, 1500).Draw(t, "gap")
+	}
+	if kind != 0 {
+		c.Faults = append(c.Faults, Fault{Kind: "member-remove", Target: 3 - plan, AtMs: at})
+	}
+	return c
+}
+
+func TestMembership(t *testing.T) {
+	defer stopAll()
+	kit.Check(t, kit.Spec[Case]{Sub: "load", Quick: 1, Thorough: 6, Gen: genMemberCase, Exec: exec, NoShrink: true})
 }
 
 func TestPauseEachNode(t *testing.T) {
